@@ -430,6 +430,12 @@ example : (Skiplist.empty.putAll demoOps).map (fun s => s.get (k 0x62 6)) =
 
 example : (Skiplist.empty.putAll demoOps).map (fun s => (s.findNear (k 0x62 6) true false).1) =
     some (.node (k 0x62 7)) := by decide
+
+-- the hypotheses of the theorems above (`Inv s`, heights in range) hold for this instance
+example : ∃ s, Skiplist.empty.putAll demoOps = some s ∧ Inv s ∧ s.toList.length = 4 := by
+  obtain ⟨s, e, hi, ht⟩ := C22_seq_toList demoOps (by decide)
+  refine ⟨s, e, hi, ?_⟩
+  rw [ht]; decide
 end Examples
 
 end Badger
